@@ -4,6 +4,7 @@ CONSTANTS
     Loop = "copy"
     Family = "all"
     Tier = "thorough"
+    Reporter = "contract"
     EmitOn = TRUE
 INIT Init
 NEXT Next
